@@ -132,6 +132,26 @@ def _pick_float(r, k):
 
 
 def _gen_float(r, k, depth):
+    if r.random() < k.p_edge * 0.12:
+        # the one-point intervals at the ends of the float line: min(+inf) admits exactly inf (and nan,
+        # which no bound check refuses), max(-inf) exactly -inf
+        w = float("inf") if r.random() < 0.5 else -float("inf")
+        s = {"t": "float"}
+        near, far = ("min", "max") if w > 0 else ("max", "min")
+        s[near] = enc(w)
+        rest = [near]
+        if r.random() < 0.3:
+            s[far] = enc(w)
+            rest.append(far)
+        if r.random() < 0.3:
+            s["precision"] = r.choice((1, 2, 6))
+            rest.append("precision")
+        r.shuffle(rest)
+        if r.random() < k.p_value:
+            s["value"] = enc(w)
+            rest.insert(0, "value")
+        s["order"] = rest
+        return s, w
     w = _pick_float(r, k)
     s = {"t": "float"}
     prec = None
@@ -504,8 +524,19 @@ def _gen_alias(r, k, depth):
     return {"t": "alias", "name": r.choice(("Alias", "UserId", "T")), "inner": sub}, sw
 
 
-def gen_plain(r, depth=2):
-    """A plain nested value (for from_native and untyped positions)."""
+EXOTIC_CONTAINERS = (
+    {"alpha", "beta", "gamma"}, frozenset(("x", "y")), {"tag-1", "tag-2", "tag-3", "tag-4"}, ("a", "b"), (1, "z"),
+    {0, 8}, frozenset((16, 0, 8)), {"k": {"read", "write"}}, [("p", 1), {"q", "r"}],
+)
+
+
+def gen_plain(r, depth=2, exotic=0.0):
+    """A plain nested value (for from_native and untyped positions).  `exotic`: chance of a container
+    from_native does not convert today (tuple / set / frozenset; the declaration then raises and the
+    spec is discarded) -- a tree that learns to convert them is explored like everything else."""
+    if exotic and r.random() < exotic:
+        import copy
+        return copy.deepcopy(r.choice(EXOTIC_CONTAINERS))
     x = r.random()
     if depth > 0 and x < 0.25:
         return [gen_plain(r, depth - 1) for _ in range(r.randint(0, 3))]
@@ -514,10 +545,21 @@ def gen_plain(r, depth=2):
     return _filler(r)
 
 
+def _ints_for_floats(v):
+    t = type(v)
+    if t is float and v == v and abs(v) < 1e15:
+        return int(round(v))
+    if t is list:
+        return [_ints_for_floats(x) for x in v]
+    if t is dict:
+        return {kk: _ints_for_floats(x) for kk, x in v.items()}
+    return v
+
+
 def _gen_op(r, k, depth):
     op = r.choice(("+", "|", "%", "%", "make_required", "from_native"))
     if op == "from_native":
-        v = gen_plain(r, min(depth, 3))
+        v = gen_plain(r, min(depth, 3), exotic=0.1)
         if k.no_clock is False or True:
             return {"t": "op", "op": "from_native", "v": enc(v)}, v
     if op == "|":
@@ -546,6 +588,10 @@ def _gen_op(r, k, depth):
     # "%": substitute (a part of) the witness
     a, aw = gen(r, k, depth - 1)
     v = partial_of(aw, r, p_drop=r.choice((0.0, 0.3, 0.7)))
+    if r.random() < 0.06:
+        # JSON-like payloads carry 10 where the schema says float: refused today (the spec is discarded),
+        # explored on a tree that lets it through
+        v = _ints_for_floats(v)
     if k.p_placeholder and r.random() < k.p_placeholder:
         v = with_placeholders(v, r)
         # `...` widens what the result accepts; the full witness still conforms
